@@ -43,6 +43,18 @@ var c16Statements = []string{
 	"CREATE TABLE zz (a text DEFAULT '%s', b bigint DEFAULT %d)",              // DDL
 	"SELECT upper('%s'), id FROM t1 WHERE id = %d",                            // function argument
 	"SELECT id FROM t1 WHERE plain = (SELECT note FROM t2 WHERE note = '%s' AND id = %d)", // sub-select
+	"SELECT '%s', %d FROM t1",                                                             // select list
+	"SELECT plain, count(*) FROM t1 GROUP BY plain HAVING plain = '%s' OR count(*) > %d",  // HAVING
+	"SELECT id FROM t1 WHERE plain = '%s' UNION SELECT id FROM t2 WHERE id = %d",          // union
+	"SELECT id FROM t1 WHERE plain = '%s' LIMIT 5 OFFSET %d",                              // OFFSET
+	"INSERT INTO t2 (id, note) VALUES (1, 'x'), (%d, '%s')",                               // second VALUES row
+	"SELECT CASE WHEN plain = '%s' THEN %d ELSE 0 END FROM t1",                            // CASE
+	"SELECT id FROM t1 WHERE plain = '%s'::text AND id = %d::bigint",                      // casts
+	"SELECT id FROM t1 WHERE plain = $$%s$$ AND id = %d",                                  // dollar-quoted string
+	"SELECT id FROM t1 WHERE plain = 'it''s %s' AND id = +%d",                             // doubled quote, unary plus
+	"CREATE TABLE zz (a text DEFAULT '%s', b garbage %d)",                                 // DDL understood only in part
+	"INSERT INTO t2 (id, note) SELECT id, '%s' FROM t1 WHERE id = %d",                     // INSERT .. SELECT
+	"SELECT id FROM t1 WHERE plain = '%s' ORDER BY id = %d",                               // ORDER BY expression
 }
 
 func (C16) Explore(x *kernel.Explorer, seed uint64) {
